@@ -23,7 +23,7 @@ for pid in sorted(PROPS):
 out.append("\nNot applicable: none — every property has a logic core that M expresses; where part of the truth lives in the\n"
            "runtime (native stack bytes, process I/O, wasm, JSON-RPC) the MANIFEST `level_note` names the part that is only exercised.\n")
 out.append("\n---------------------------------------------------------------------------\n\n## 6. Seeded changes: which check catches which\n\n"
-           "One hundred and forty-four changes (six per property in three rounds of two, and a fourth round of two for the twelve core-interpreter properties) were written by fresh sub-agents that saw only the property text and a\n"
+           "One hundred and sixty changes (six per property in three rounds of two, then two more for each property in a fourth round - the twelve core-interpreter properties - and a fifth - the other eight) were written by fresh sub-agents that saw only the property text and a\n"
            "scratch worktree (the second round was also told what the first had tried, so as not to repeat it); each compiles,\n"
            "passes the 153 existing tests, and comes with a demonstration that fails with the change and passes without it\n"
            "(confirmed here with `tools/confirm_seed.sh`).  They are kept under `seeded/<id>-<a..h>/` (`patch.diff`, demo,\n"
@@ -70,6 +70,14 @@ out.append("\n------------------------------------------------------------------
            "18446744073709551615 and programs edited after a run - lines, DATA lines among them, overwritten or deleted before\n"
            "LIST / reload (C14); FOR loops typed at the prompt when stopped at the cap (C16); shaped programs whose warnings\n"
            "come from reads of an outer call's argument (C17).  All 24 are now reported by the quick tier.\n\n"
+           "Round 5 (`-g`, `-h` of the other eight properties: C05, C06, C12, C13, C15, C18, C19, C20; blind, told what earlier\n"
+           "rounds had tried): 12 of 16 reported at once - two of those (C06-g, C18-h) only as a disagreement between model and\n"
+           "implementation with no failing input - and 4 MISSED (C05-g, C15-g, C19-g, C20-h).  Added: definitions x calls of\n"
+           "every arity also in the C05 check, and definitions that call THEMSELVES with a wrong argument list (C05, C06);\n"
+           "file lines whose statement part is only separators - a spacer, a jump target, a replacement of an earlier line\n"
+           "(C15); lines refused for a syntax error inside an RND call, after which the generator must not have moved (C18);\n"
+           "NEW followed by further words / in other letter case (C19); a document opened again with a different text, with\n"
+           "or without a close in between (C20; new operation `lspo`).  All 16 are now reported with a concrete failing input.\n\n"
            "Mechanical mutants (`tools/mutants.py`): 239 one-token mutants of the Rust sources (comparison flips, deleted\n"
            "statements, off-by-one constants) were each run through the existing tests and then through the quick tier in a\n"
            "scratch copy.  Survivors were triaged by hand (`python3 tools/mutants.py report` prints them): all but two are equivalent mutants (for\n"
@@ -81,7 +89,7 @@ out.append("\n------------------------------------------------------------------
            "generator), and the deleted `discard_remaining_tokens()` at a colon in the false-branch scan of IF (no generator put\n"
            "further statements after an IF on the same line, so a later `IF .. ELSE` whose ELSE the scan would wrongly pick up\n"
            "never occurred; the generator now does).  C03 reports both with a concrete program.\n\n"
-           "The lesson kept from four rounds: misses were always generator reach, so every miss was answered with a\n"
+           "The lesson kept from five rounds: misses were always generator reach, so every miss was answered with a\n"
            "*family* of inputs (a dimension of the input space), and the evidence file prints the distribution of families.\n\n"
            "| seed | needs, in order to manifest | result |\n|---|---|---|\n")
 for d in sorted(glob.glob(os.path.join(V, "seeded", "*"))):
